@@ -145,15 +145,20 @@ func runC11(c *Ctx) {
 						if !(len(e.Args) == 2 && nx.Op == "extract" && nx.N == 1 && e.Args[1].Op == "extract" && e.Args[1].N == 2 && nx.Args[0].Key() == e.Args[1].Args[0].Key()) {
 							ok, why = false, "the callback does not get the iteration's key and value"
 						}
+						resFalse := false
 						for _, cd := range p.Conds {
 							t, pol := stripNot(cd.T, cd.Pol)
 							if t.Key() == e.Res.Key() && !pol {
+								resFalse = true
 								if p.End == EndLoopBack {
 									ok, why = false, "keeps iterating after the callback returned false"
 								} else {
 									sawStop = true
 								}
 							}
+						}
+						if p.End != EndLoopBack && !resFalse {
+							ok, why = false, "stops although the callback did not return false: the remaining pairs are never visited"
 						}
 					default:
 						ok, why = false, "unexpected effect "+e.String()
